@@ -51,6 +51,11 @@ class HSFZDiscoverer(UDSDiscoveryScanner):
                 raw_resp = await asyncio.wait_for(conn.read_diag_request(), timeout)
             except TimeoutError:
                 return result
+            except ConnectionError:
+                # The connection broke while draining; an answer which was received before stays valid.
+                if result:
+                    return result
+                raise
 
             resp = DiagnosticSessionControlResponse.parse_static(raw_resp)
             raise_for_mismatch(req, resp)
